@@ -6,6 +6,7 @@ package fclient
 
 import (
 	"context"
+	"fmt"
 	"net"
 	"net/http"
 	"syscall"
@@ -66,6 +67,17 @@ func (fc *Client) VerifTransports() map[string]time.Time {
 		out[k], _ = t.lastUsed.Load().(time.Time)
 	}
 	return out
+}
+
+// VerifGetTransport runs the tripper's get-or-create for a TLS server name and
+// returns the identity of the transport it hands out ("" without a
+// destinationTripper).
+func (fc *Client) VerifGetTransport(tlsServerName string) string {
+	dt, ok := fc.client.Transport.(*destinationTripper)
+	if !ok {
+		return ""
+	}
+	return fmt.Sprintf("%p", dt.getTransport(tlsServerName, dt.dialer))
 }
 
 // VerifFederationDialer returns the dialer the client's destinationTripper
